@@ -11,7 +11,7 @@ Driver for the enum / bit field model.  kind = `e` (NewEnumType) | `b` (NewBitfi
       -> err=<class|-> names=... values=... namemap=... valuemap=...  |  err=...   (one block per call; the table after call k
          is that of `fold` over the first k calls, the error that of call k)
   spec.assign <kind> (<name-hex> <int|->)*   -> none | ok <hex:int,...>   (RFC 7950 assignment, table listed by ascending name)
-  spec.text   <kind> (<name-hex> <hex|nil>)* -> na | none | ok <...>       (na: some argument is not `[sign] digits` without superfluous leading zeros)
+  spec.text   <kind> (<name-hex> <hex|nil>)* -> na | none | ok <...>       (na: some argument is an integer in a spelling outside the claimed literal form `[-] digits` without superfluous leading zeros; none also when some argument is no integer at all)
 -/
 open Goyang Goyang.Proto
 open Goyang.Model.Enum
@@ -77,6 +77,17 @@ def litValue (s : List UInt8) : Option Int :=
   | some l => if l.proper ∧ l.fp = none ∧ l.noLeadingZero then some l.num else none
   | none => none
 
+/-- not an integer under any reading: the text has no decimal digit at all (empty, a bare sign, words).
+RFC 7950 9.6.4.2 / 9.7.4.2: the argument of `value` / `position` is an integer, so a type with such
+a member is invalid.  (Texts that do contain digits but are not of the claimed literal form — other
+radices, blanks, a fraction, an exponent — stay outside the claim: `na`.) -/
+def notInteger (s : List UInt8) : Bool := !s.any (fun b => 48 ≤ b && b ≤ 57)
+
+def anyNotInteger : List (Name × Option (List UInt8)) → Bool
+  | [] => false
+  | (_, none) :: rest => anyNotInteger rest
+  | (_, some s) :: rest => notInteger s || anyNotInteger rest
+
 def specTextArgs : List (Name × Option (List UInt8)) → Option (List (Name × Option Int))
   | [] => some []
   | (n, none) :: rest => (specTextArgs rest).map ((n, none) :: ·)
@@ -112,7 +123,7 @@ def handle : List String → String
     | some (_, k), some ms =>
       match specTextArgs ms with
       | some ms => showSpec k ms
-      | none => "na"
+      | none => if anyNotInteger ms then "none" else "na"
     | _, _ => "bad-op"
   | _ => "bad-op"
 
